@@ -199,10 +199,13 @@ def union_measure(intervals: List[Any]) -> int:
 
 def _case(seed: int) -> Dict[str, Any]:
     import re
+    from fractions import Fraction
 
     from hv import gen, rt
 
     kw = dict(n_streams=1 + seed % 3, steps=(seed % 3), p_zero_kernel=0.2, p_memcpy=0.25, n_top=2 + seed % 3, p_orphan_kernel=0.1)
+    if seed % 5 == 4:
+        kw["p_frac_kernel_dur"] = 0.6  # whole-number timestamps, fractional durations: nothing is rounded, the parts are exact fractions
     per_rank = gen.gen_trace_set(seed, n_ranks=1 + seed % 2, **kw)
     fails = []
     n = 0
@@ -221,7 +224,7 @@ def _case(seed: int) -> Dict[str, Any]:
             dev = df[df["stream"] != -1]
             if len(dev) == 0:
                 continue
-            iv = [(int(a), int(a + b)) for a, b in zip(dev["ts"], dev["dur"])]
+            iv = [(Fraction(float(a)), Fraction(float(a)) + Fraction(float(b))) for a, b in zip(dev["ts"], dev["dur"])]  # exact: quarters are binary fractions
             names = [stab[i] for i in dev["name"]]
             # independent reading of the kernel-type rule: computation = not nccl kernel, not memory, not sync
             def is_comp(nm):
@@ -236,14 +239,14 @@ def _case(seed: int) -> Dict[str, Any]:
             comp = union_measure(civ)
             exp = {"idle_time(us)": kt - busy, "compute_time(us)": comp, "non_compute_time(us)": busy - comp, "kernel_time(us)": kt}
             row = out[out["rank"] == rk].iloc[0]
-            got = {k: int(row[k]) for k in exp}
+            got = {k: Fraction(float(row[k])) for k in exp}
             n += 1
             if got != exp:
-                fails.append({"what": "parts_match_measure", "input": {"seed": seed, "rank": rk, "events": per_rank[rk]}, "observed": got, "expected": exp})
+                fails.append({"what": "parts_match_measure", "input": {"seed": seed, "rank": rk, "events": per_rank[rk]}, "observed": {k: float(v) for k, v in got.items()}, "expected": {k: float(v) for k, v in exp.items()}})
             elif kt > 0:
                 for part, col in (("idle_time(us)", "idle_time_pctg"), ("compute_time(us)", "compute_time_pctg"), ("non_compute_time(us)", "non_compute_time_pctg")):
-                    if abs(float(row[col]) - round(100 * exp[part] / kt, 2)) > 1e-9:
-                        fails.append({"what": "percentage", "input": {"seed": seed, "rank": rk, "events": per_rank[rk]}, "observed": float(row[col]), "expected": round(100 * exp[part] / kt, 2)})
+                    if abs(float(row[col]) - float(100 * exp[part] / kt)) > 0.005 + 1e-9:  # any correct rounding to two decimals
+                        fails.append({"what": "percentage", "input": {"seed": seed, "rank": rk, "events": per_rank[rk]}, "observed": float(row[col]), "expected": round(float(100 * exp[part] / kt), 2)})
     return {"n_checks": n, "fails": fails, "nontrivial": n > 0, "sample": {"seed": seed, "ranks": len(per_rank)}, "clauses": {"parts_match_measure": n}}
 
 
